@@ -33,7 +33,7 @@ for m in muts:
             open(p, "w").write(s.replace(ed["old"], ed["new"]))
         else:
             env = dict(os.environ, VSA_REPO=d, VSA_EVIDENCE=os.path.join(d, "evidence"))
-            r = subprocess.run([os.path.join(VERIF, "check"), m["pid"], "--tier", "quick"], env=env, capture_output=True, text=True)
+            r = subprocess.run([os.path.join(VERIF, "check"), m["pid"], "--tier", "quick"], env=env, capture_output=True, text=True, timeout=900)
             out = r.stdout + r.stderr
             if m["kind"] == "break":
                 ok = r.returncode == 1 and ("rule %s " % m["expect"]) in out
